@@ -102,10 +102,21 @@ func (o *objectGoSlice) getOwnPropIdx(idx valueInt) Value {
 	return nil
 }
 
+// allocGoSlice allocates the backing array of a wrapped Go slice that script is growing. A size the
+// Go runtime refuses to allocate is reported to the script as a RangeError instead of panicking the host.
+func allocGoSlice(size, capacity int) (n []interface{}) {
+	defer func() {
+		if x := recover(); x != nil {
+			panic(rangeError("Slice size is too large: " + strconv.Itoa(size)))
+		}
+	}()
+	return make([]interface{}, size, capacity)
+}
+
 func (o *objectGoSlice) grow(size int) {
 	oldcap := cap(*o.data)
 	if oldcap < size {
-		n := make([]interface{}, size, growCap(size, len(*o.data), oldcap))
+		n := allocGoSlice(size, growCap(size, len(*o.data), oldcap))
 		copy(n, *o.data)
 		*o.data = n
 	} else {
